@@ -5,3 +5,4 @@ import UmapProps.C20
 import UmapProps.C10
 import UmapProps.C07
 import UmapProps.C12
+import UmapProps.C09
